@@ -832,3 +832,54 @@ def embed(ctx, w, fn, *args, **kw):
         return fn(ctx, w, *args, **kw)
     finally:
         ctx.explanation, ctx.decided, ctx.not_decided = keep
+
+
+def mode_arm_siblings(ctx, w, S, R, rule):
+    """Set / reset arms of one mode are siblings: for flag-like modes (both arms assign a constant to the same field)
+    the two arms write the same state components - whatever else one of them touches (cursor homing for origin
+    mode) the other touches too, and a pure flag touches nothing else."""
+    E = w.E
+    ctx.rule(rule, "for every flag-like mode, the arm that sets it and the arm that resets it write the same state components (a mode switch that also clears wrap-pending, homes the cursor, ... on one side only is not a pure mode change)")
+    n = 0
+    for hs, hr, enum in (("Decset", "Decrst", "parser::DecMode"), ("Sm", "Rm", "parser::AnsiMode")):
+        variants = w.facts.enum_variants(enum) or []
+        for v in variants:
+            arms = []
+            for hv in (hs, hr):
+                for h in w.handler(hv):
+                    m, i, arm = arm_for(w, h, "%s::%s" % (enum, v))
+                    if arm is not None:
+                        arms.append((h, arm))
+            if len(arms) != 2:
+                continue
+            wsets = []
+            consts = []
+            for h, arm in arms:
+                ws = set()
+                cf = set()
+                for sf, rhs in self_assigns(arm["body"]):
+                    ws.add(tuple(sf))
+                    r0 = H.unwrap(rhs)
+                    if H.is_k(r0, "lit") or (H.is_k(r0, "path") and r0.get("res") == "def"):
+                        cf.add(tuple(sf))
+                for nd in H.walk(arm["body"]):
+                    if H.is_k(nd, "mcall") and nd.get("callee_local") and nd["callee"] in E.summaries:
+                        for p in E.summaries[nd["callee"]].W:
+                            if p[0] == "arg1" and len(p) >= 2:
+                                ws.add(tuple(x for x in p[1:3] if isinstance(x, str)))
+                wsets.append(ws)
+                consts.append(cf)
+            if not (consts[0] & consts[1]):
+                continue                       # not a flag-like mode (screen switch, save/restore cursor)
+            n += 1
+
+            def norm(ws):
+                out = set()
+                for p in ws:
+                    out.add(p if len(p) == 1 or p[0] == R["cursor"] else p[:1])
+                return out
+            a, b = norm(wsets[0]), norm(wsets[1])
+            ctx.check(a == b, rule, "%s::%s" % (enum, v),
+                      "setting %s writes %s but resetting it writes %s: one direction of the mode switch changes state the other does not" % (v, sorted(".".join(p) for p in a), sorted(".".join(p) for p in b)),
+                      loc=w.fn_loc(arms[1][0]), sample={"mode": v, "set_writes": sorted(".".join(p) for p in a), "reset_writes": sorted(".".join(p) for p in b)})
+    ctx.floor(rule, 5, "flag-like modes")
